@@ -294,6 +294,7 @@ structure Invocation where
   check : Bool := false
   version : Option Bytes := none
   year : Bytes := []
+  stdin : Bytes := []  -- what the process finds on standard input (read by `generate -` only)
 
 /-- result of an invocation: exit status 0?, the tree, and what `generate` printed -/
 structure RunResult where
@@ -366,8 +367,7 @@ def oneTarget (inv : Invocation) : Bool :=
 
 /-- `crs-toolchain [-o O] COMMAND …` on the tree of the resolved root. `lint`: verdict of the upper-case lint per file
     (an input); `versionOk`: verdict of the semantic-version library on the `-v` value (an input).
-    `none`: a form of the command this model does not cover (`generate -`, arguments with path separators or
-    pattern characters). -/
+    `none`: a form of the command this model does not cover (arguments with path separators or pattern characters). -/
 def run (E : Asm.Engine) (cfg : Asm.Config) (o1 o2 : Parser.Ord) (lint : Bytes → Bool) (versionOk : Bool)
     (inv : Invocation) (t : Tree) : Option RunResult :=
   let fail : RunResult := ⟨false, t, []⟩
@@ -381,9 +381,15 @@ where
     match inv.cmd with
     | .generate =>
       match inv.args with
-      | [arg] => if arg == b!"-" then none else
-          let r := generateCmd E cfg o1 o2 t arg
-          some ⟨r.ok, r.tree, r.stdout⟩
+      | [arg] =>
+          if arg == b!"-" then
+            -- the program comes from standard input; include files and configuration from the tree as ever
+            match (runFile E cfg o1 o2 {} (fsOf t) inv.stdin).2 with
+            | .ok re => some ⟨true, t, re⟩
+            | .error _ => some fail
+          else
+            let r := generateCmd E cfg o1 o2 t arg
+            some ⟨r.ok, r.tree, r.stdout⟩
       | _ => some fail
     | .update =>
       if !oneTarget inv then some fail
